@@ -96,6 +96,15 @@ Init == call = [fn |-> "Init"] /\ res = [v |-> ""]
 Next == call.fn = "Init" /\ \E c \in Cases : call' = c /\ res' = Eval(c)
 Spec == Init /\ [][Next]_vars
 
+\* ------------------------------------------------------------------ concurrency
+\* The four conversions are PURE functions: the module has no state besides the call and its result, the result of
+\* a call is Eval(argument) whatever calls ran before or run at the same time.  Hence any interleaving of calls by
+\* any number of goroutines gives every call its sequential result (the node converts addresses from many
+\* goroutines).  The binding executes all generated rows from 8 goroutines concurrently, also in a -race build, and
+\* compares every outcome with the sequential one; shared mutable state in the implementation shows up as a
+\* differing outcome or as a reported data race.
+Pure == [][res' = Eval(call')]_vars
+
 \* ------------------------------------------------------------------ properties (C22)
 \* every address encodes to a string that decodes to the same address
 RoundTripOK(c, r) == /\ c.fn = "ToBase58" => Decode(r.s) = Verdict("accept", c.addr)
